@@ -24,6 +24,7 @@ import (
 	"bytes"
 	"encoding/binary"
 	"encoding/hex"
+	"encoding/json"
 	"fmt"
 	"io"
 	"math/rand"
@@ -34,6 +35,7 @@ import (
 	"os"
 	"path/filepath"
 	"sort"
+	"strconv"
 	"strings"
 	"sync"
 	"sync/atomic"
@@ -87,7 +89,7 @@ func main() {
 		},
 		Post: func(c *ev.Check, outs []*run.Outcome) {
 			for _, k := range []string{"agree.raw", "agree.client", "agree.bits_set", "agree.banned_slots", "agree.servers_in_reply", "agree.migration_in_reply",
-				"refusal.raw", "refusal.client", "agree.burst", "agree.client_relayed", "rejected.large_list_tail", "race.cells", "rejected.twin_signature", "rejected.time_far_resigned", "recovery.single_server", "recovery.three_servers", "stale_round.judged", "stale_round.unchanged", "rotation.injected_at.sync.ready", "rotation.injected_at.sync.afterCopy", "rotation.under_load", "rotation.reply_is_state_before", "rotation.reply_is_state_after", "tamper.bitflip", "tamper.truncate", "tamper.extend_adjusted", "tamper.resign_otherkey",
+				"refusal.raw", "refusal.client", "agree.burst", "agree.client_relayed", "rejected.large_list_tail", "race.cells", "multibyte.accepted.255_bytes", "rejected.twin_signature", "rejected.time_far_resigned", "recovery.single_server", "recovery.three_servers", "stale_round.judged", "stale_round.unchanged", "rotation.injected_at.sync.ready", "rotation.injected_at.sync.afterCopy", "rotation.under_load", "rotation.reply_is_state_before", "rotation.reply_is_state_after", "tamper.bitflip", "tamper.truncate", "tamper.extend_adjusted", "tamper.resign_otherkey",
 				"accepted.time_within", "rejected.time_outside", "rejected.devkey", "rejected.entry_sig", "rejected.mig_outer", "rejected.mig_inner",
 				"fullround.rejected_unchanged", "fullround.accepted", "states.offset_0", "states.offset_2016", "states.offset_4032"} {
 				c.Require(k, 1)
@@ -578,6 +580,44 @@ type problem struct {
 }
 
 const slowCall = 1500 * time.Millisecond
+
+// multibyteServers posts GCA-signed records whose locations consist of 2-, 3-
+// and 4-byte characters: byte lengths 254 and 255 (fit the one-byte length of
+// the wire format) and 256..510 with at most 255 characters (do not fit). A
+// record may be refused; one that is accepted belongs to the list, and every
+// later reply has to carry the list exactly (judged by the stages that follow).
+func (s *st) multibyteServers() bool {
+	runes := []string{"é", "€", "😀"}
+	for i, size := range []int{254, 255, 256, 300, 400, 510} {
+		ru := runes[(i+s.rng.Intn(3))%3]
+		loc := " " // makes the fan-out URL unparsable: nothing is contacted
+		for len(loc)+len(ru) <= size {
+			loc += ru
+		}
+		for len(loc) < size {
+			loc += "x"
+		}
+		if _, err := url.Parse(fmt.Sprintf("http://%s:1/api/v1/authorized-servers", loc)); err == nil {
+			continue
+		}
+		a := refenc.AuthServer{Pub: refenc.GenKey(s.rng).Pub, Banned: s.rng.Intn(3) == 0, Location: loc, HTTP: uint16(s.rng.Intn(65536)), TCP: uint16(s.rng.Intn(65536)), UDP: uint16(s.rng.Intn(65536))}.Signed(s.GCA.Priv)
+		locJSON, _ := json.Marshal(a.Location) // UTF-8 goes through as it is
+		body := bytes.Replace(a.JSON(), []byte(`"Location":`+strconv.Quote(a.Location)), append([]byte(`"Location":`), locJSON...), 1)
+		run.Op("post authorized server with a %d byte / %d character location", len(loc), len([]rune(loc)))
+		code, _, err := postJSON(s.HTTP, "/api/v1/authorized-servers", body)
+		if err != nil {
+			s.r.Inconc("post failed: " + err.Error())
+			return false
+		}
+		if code == 200 {
+			s.model = append(s.model, a)
+			s.r.Count(fmt.Sprintf("multibyte.accepted.%d_bytes", size), 1)
+		} else {
+			s.r.Count(fmt.Sprintf("multibyte.refused.%d_bytes", size), 1)
+		}
+	}
+	return true
+}
 
 // agreeRaw: oracle (i) for one device. The state is quiescent, so a genuine
 // disagreement repeats; a starved machine (the server gives a connection 2.5 s
@@ -2358,6 +2398,12 @@ func child(b run.Batch, r *ev.Result) {
 		}
 	}
 	s.agree("servers-final")
+	if sidx%3 == 0 {
+		if !s.multibyteServers() {
+			return
+		}
+		s.agree("multibyte-locations")
+	}
 	s.refusals(b.Dir)
 	if withMig {
 		m := refenc.Migration{Equipment: s.A.Key.Pub, NewGCA: s.G2.Pub, NewID: uint32(rng.Intn(1 << 30))}
